@@ -989,3 +989,37 @@ func GenerateSelection(seed int64, index int, opt Options) *Case {
 	}
 	return c
 }
+
+// OnlyMethod returns a copy of the case whose setup file contains only the
+// interface declaring the named method, with that method alone (C09: each
+// method's result must be the same as if it were the only method present).
+func (c *Case) OnlyMethod(name string, opt Options) *Case {
+	nc := &Case{Seed: c.Seed, Index: c.Index, Files: tool.Files{}, Features: map[string]int{}, Struct: c.Struct, SetupPath: c.SetupPath}
+	for k, v := range c.Files {
+		nc.Files[k] = v
+	}
+	for _, it := range c.Interfaces {
+		for _, m := range it.Methods {
+			if m.Name == name {
+				one := it
+				one.Methods = []Method{m}
+				nc.Interfaces = []Interface{one}
+			}
+		}
+	}
+	rng := rand.New(rand.NewSource(c.Seed*31 + int64(c.Index)))
+	nc.Files[c.SetupPath] = renderSetup(rng, nc, opt)
+	return nc
+}
+
+// SignatureCase builds one setup file from explicit methods (C08's enumeration).
+func SignatureCase(seed int64, index int, methods []Method, extraTypes string, intfNotations []string) *Case {
+	c := &Case{Seed: seed, Index: index, Files: tool.Files{}, Features: map[string]int{}, Struct: map[string][]FieldDecl{}, SetupPath: "pk/setup.go"}
+	c.Interfaces = []Interface{{Name: "Convergen", Methods: methods, Notations: intfNotations, NoDoc: len(intfNotations) == 0}}
+	c.Files["ext/ext.go"] = ExtSrc
+	c.Files["ext2/ext2.go"] = Ext2Src
+	c.Files["pk/types.go"] = LocalTypes + extraTypes
+	rng := rand.New(rand.NewSource(seed*17 + int64(index)))
+	c.Files["pk/setup.go"] = strings.Replace(renderSetup(rng, c, Options{}), "\t_ \"cvcase/ext2\"", "\t\"cvcase/ext2\"", 1)
+	return c
+}
